@@ -34,8 +34,10 @@ pub struct Step {
     pub out: Out,
     /// reader.position() right after the op (FASTA: None when not available)
     pub pos: Option<(u64, u64)>,
-    /// resolved seek target of SeekRec / SeekSeen
+    /// resolved seek target of SeekRec / SeekSeen (in the coordinates of the current reader)
     pub target: Option<(u64, u64)>,
+    /// Restart(j) was applied: (item index, line offset, byte offset) of the new reader's origin
+    pub restarted: Option<(usize, u64, u64)>,
     pub seam: OpSeam,
     /// calls index range [from, to) of source calls made during the op
     pub calls_from: usize,
@@ -409,7 +411,7 @@ fn drive_api<A: Api>(scn: &ReadScn, cfg: &Cfg, targets: &SeekTargets) -> RunLog 
     let budget = 64 * (scn.input.len() as u64 + cfg.cap as u64) + 4096;
     let seam = new_seam(budget);
     let data = Rc::new(scn.input.clone());
-    let src = SimSource::new(data, cfg, seam.clone());
+    let src = SimSource::new(data.clone(), cfg, seam.clone());
     let pol = SimPolicy::new(cfg.policy.clone(), seam.clone());
     let mut reader: Option<A::Reader> = Some(A::new(src, cfg.cap.max(3), pol));
     let mut sets: Vec<A::Set> = (0..N_SLOTS).map(|_| A::Set::default()).collect();
@@ -417,6 +419,8 @@ fn drive_api<A: Api>(scn: &ReadScn, cfg: &Cfg, targets: &SeekTargets) -> RunLog 
     let mut snaps: Vec<Option<Vec<RecObs>>> = vec![None; N_SLOTS];
     let mut seen_pos: Vec<(u64, u64)> = vec![];
     let mut log = RunLog::default();
+    // origin of the current reader in input coordinates (changed by Restart)
+    let mut origin: (u64, u64) = (0, 0);
     let mut ctx = MonCtx::new(&scn.mon, scn.mon.iter_seed ^ 0x5151);
     let no_mon = Monitors::default();
     let mut quiet = MonCtx::new(&no_mon, 0);
@@ -429,7 +433,21 @@ fn drive_api<A: Api>(scn: &ReadScn, cfg: &Cfg, targets: &SeekTargets) -> RunLog 
         let calls_from = seam.borrow().calls;
         let mut written_slot: Option<usize> = None;
         let mut seek_target: Option<(u64, u64)> = None;
+        let mut restarted: Option<(usize, u64, u64)> = None;
         let out: Out = match op {
+            Op::Restart(j) => match targets.get(*j).copied().flatten() {
+                Some((line, byte)) => {
+                    drop(reader.take());
+                    let src = SimSource::new_from(data.clone(), byte as usize, cfg, seam.clone());
+                    let pol = SimPolicy::new(cfg.policy.clone(), seam.clone());
+                    reader = Some(A::new(src, cfg.cap.max(3), pol));
+                    origin = (line - 1, byte);
+                    seen_pos.clear();
+                    restarted = Some((*j, origin.0, origin.1));
+                    Out::Noop
+                }
+                None => Out::Noop,
+            },
             Op::Next => {
                 let r = reader.as_mut().unwrap();
                 ctx.fresh = true;
@@ -464,6 +482,8 @@ fn drive_api<A: Api>(scn: &ReadScn, cfg: &Cfg, targets: &SeekTargets) -> RunLog 
                     Ok(None) => {
                         // the set's contents after a `None` are not specified: no snapshot
                         snaps[slot] = None;
+                        let set = &sets[slot];
+                        let _ = vcore::catch(|| A::set_monitors(set, &mut ctx));
                         Out::End
                     }
                     Ok(Some(Ok(()))) => {
@@ -494,6 +514,10 @@ fn drive_api<A: Api>(scn: &ReadScn, cfg: &Cfg, targets: &SeekTargets) -> RunLog 
                     }
                     Ok(Some(Err((e, m)))) => {
                         snaps[slot] = None;
+                        // C19: a (reused) set that comes back from a failed read still has to
+                        // survive serialisation as what it is
+                        let set = &sets[slot];
+                        let _ = vcore::catch(|| A::set_monitors(set, &mut ctx));
                         Out::Err(e, m)
                     }
                     Err(p) => {
@@ -504,7 +528,13 @@ fn drive_api<A: Api>(scn: &ReadScn, cfg: &Cfg, targets: &SeekTargets) -> RunLog 
             }
             Op::SeekRec(_) | Op::SeekSeen(_) => {
                 let target = match op {
-                    Op::SeekRec(j) => targets.get(*j).copied().flatten(),
+                    Op::SeekRec(j) => targets.get(*j).copied().flatten().and_then(|(l, b)| {
+                        if b >= origin.1 && l > origin.0 {
+                            Some((l - origin.0, b - origin.1))
+                        } else {
+                            None
+                        }
+                    }),
                     Op::SeekSeen(k) => {
                         if seen_pos.is_empty() {
                             None
@@ -587,6 +617,7 @@ fn drive_api<A: Api>(scn: &ReadScn, cfg: &Cfg, targets: &SeekTargets) -> RunLog 
             out,
             pos,
             target: seek_target,
+            restarted,
             seam: seam.borrow().op.clone(),
             calls_from,
             calls_to,
